@@ -12,7 +12,10 @@ Inductive case :=
          (supplied received : list (bytes * list bytes))     (* sorted by parameter name *)
          (auth_ok : bool)
          (resp_sent : bytes * bytes) (seen_code : nat) (resp_seen : bytes * bytes)
-         (in_guard : bool).
+         (in_guard : bool)
+(* successive calls against ONE server whose templates overlap (prefix/{p1} and prefix/{p1}/{p2}): each call must reach
+   its own operation with its own values, whatever was called before *)
+| CRoundSeq (panicked : bool) (steps : list (bool * bool * list (bytes * list bytes) * list (bytes * list bytes))).
 
 Definition check_case (c : case) : N :=
   match c with
@@ -23,4 +26,9 @@ Definition check_case (c : case) : N :=
       Nat.eqb seen_code 201 &&
       bytes_eqb (fst resp_sent) (fst resp_seen) && bytes_eqb (snd resp_sent) (snd resp_seen) in
     if in_guard then verdict ok ok else 0%N
+  | CRoundSeq panicked steps =>
+    let ok := negb panicked &&
+              forallb (fun st => match st with (failed, right_op, supplied, received) =>
+                                   negb failed && right_op && list_eqb kv_eqb supplied received end) steps in
+    verdict ok ok
   end.
